@@ -1004,7 +1004,7 @@ def parse_date(value: str | None) -> datetime | None:
 
     try:
         dt = email.utils.parsedate_to_datetime(value)
-    except (TypeError, ValueError):
+    except (TypeError, ValueError, OverflowError):
         return None
 
     if dt.tzinfo is None:
